@@ -211,20 +211,32 @@ def unitCall (c : HCall) : M Unit := do
 /-- which guards are alive: (ScopedUid, ScopedGid) -/
 abbrev CredGuards := Bool × Bool
 
-/-- `set_creds`: gid first; if the uid switch fails the gid guard is dropped by `?` -/
+/-- `impl Drop for ScopedGid / ScopedUid`: back to 0; a failure is only logged -/
+def dropGid (g : Bool) : M Unit := if g then do let _ ← M.sys (.setresgid 0); pure () else pure ()
+def dropUid (g : Bool) : M Unit := if g then do let _ ← M.sys (.setresuid 0); pure () else pure ()
+
+/-- `ScopedGid::new`: `true` = a guard is alive -/
+def scopedGid (gid : Nat) : M Bool :=
+  if gid = 0 then pure false else do unitCall (.setresgid gid); pure true
+
+/-- `ScopedUid::new` -/
+def scopedUid (uid : Nat) : M Bool :=
+  if uid = 0 then pure false else do unitCall (.setresuid uid); pure true
+
+/-- `set_creds`: `ScopedGid::new(gid).and_then(|gid| Ok((ScopedUid::new(uid)?, gid)))` — gid first;
+    if the uid switch fails the gid guard is dropped by `?` -/
 def setCreds (uid gid : Nat) : M CredGuards := do
-  let g ← (if gid = 0 then pure false else do unitCall (.setresgid gid); pure true : M Bool)
-  if uid = 0 then pure (false, g) else
-  match ← M.try' (unitCall (.setresuid uid)) with
-  | .ok () => pure (true, g)
+  let g ← scopedGid gid
+  match ← M.try' (scopedUid uid) with
+  | .ok u => pure (u, g)
   | .error e => do
-    if g then let _ ← M.sys (.setresgid 0)
+    dropGid g
     M.throw e
 
 /-- drop of `(_uid, _gid)`: `_gid` first, then `_uid`; failures are only logged -/
 def dropCreds (g : CredGuards) : M Unit := do
-  if g.2 then let _ ← M.sys (.setresgid 0)
-  if g.1 then let _ ← M.sys (.setresuid 0)
+  dropGid g.2
+  dropUid g.1
 
 /-- `{ let (_uid, _gid) = set_creds(uid, gid)?; body }` -/
 def withCreds (uid gid : Nat) (body : M α) : M α := do
@@ -264,7 +276,7 @@ def raiseCapFsetid : M Unit := do
 def withKillpriv (cond : Bool) (body : M α) : M α := do
   let g ← (if cond then dropCapFsetid else pure false : M Bool)
   let r ← M.try' body
-  if g then raiseCapFsetid
+  (if g then raiseCapFsetid else pure () : M Unit)
   M.ofExcept r
 
 /-! ### descriptors of inodes (`InodeHandle`) -/
@@ -274,7 +286,7 @@ def getFile (d : InodeData) : M Fd := do
   match d.handle with
   | .file f => pure f
   | .handle h =>
-    match ← M.sys (.openByHandle h O_PATH) with
+    match ← M.sys (.openByHandle h O_PATH d.mode) with
     | .fd f _ => pure f
     | .err e => M.throw e
     | _ => M.throw EIO
@@ -325,8 +337,8 @@ def openInode (cfg : Cfg) (inode flags : Nat) : M Fd := do
   if !isSafeInode d.mode then M.throw EBADF else
   let nf := openInodeFlags cfg flags
   match d.handle with
-  | .file f => fdOf (← M.sys (.reopen f (reopenFlags nf)))
-  | .handle h => fdOf (← M.sys (.openByHandle h nf))
+  | .file f => fdOf (← M.sys (.reopen f (reopenFlags nf) d.mode))
+  | .handle h => fdOf (← M.sys (.openByHandle h nf d.mode))
 
 /-! ### lookup / forget -/
 
@@ -504,37 +516,61 @@ inductive SetattrData where
   | handle (fd : Fd)
   | procPath (fd : Fd)
 
-def setattr (cfg : Cfg) (inode : Nat) (handle : Option Nat)
-    (valid mode uid gid size atime atimens mtime mtimens : Nat) : M Reply := do
-  let d ← inodeData inode
-  let file ← getFile d
-  let data ← (if cfg.noOpen then pure (.procPath file) else
-    match handle with
-    | some h => do
-      let s ← M.get
-      let hd ← M.ofOption EBADF (s.getHandle h inode)
-      pure (.handle hd.fd)
-    | none => pure (.procPath file) : M SetattrData)
+/-- `if valid.contains(MODE)`: fchmod on the handle, or fchmodat through /proc -/
+def setattrMode (data : SetattrData) (valid mode : Nat) : M Unit :=
   if has valid FATTR_MODE then
     match data with
     | .handle f => unitCall (.fchmod f mode)
     | .procPath f => unitCall (.fchmodatProc f mode 0)
+  else pure ()
+
+/-- `if valid.intersects(UID | GID)`: one fchownat on the O_PATH descriptor, -1 for an absent id -/
+def setattrOwner (file : Fd) (valid uid gid : Nat) : M Unit :=
   if has valid (FATTR_UID ||| FATTR_GID) then
-    let u := if has valid FATTR_UID then uid else U32_MAX
-    let g := if has valid FATTR_GID then gid else U32_MAX
-    unitCall (.fchownat file [] u g (AT_EMPTY_PATH ||| AT_SYMLINK_NOFOLLOW))
+    unitCall (.fchownat file []
+      (if has valid FATTR_UID then uid else U32_MAX) (if has valid FATTR_GID then gid else U32_MAX)
+      (AT_EMPTY_PATH ||| AT_SYMLINK_NOFOLLOW))
+  else pure ()
+
+/-- `if valid.contains(SIZE)`: ftruncate on the handle, or on a fresh descriptor of the inode -/
+def setattrSize (cfg : Cfg) (inode : Nat) (data : SetattrData) (valid size : Nat) : M Unit :=
   if has valid FATTR_SIZE then
-    withKillpriv (cfg.killprivV2 && has valid FATTR_KILL_SUIDGID) do
-      match data with
-      | .handle f => unitCall (.ftruncate f size)
-      | .procPath _ => do
-        let f ← openInode cfg inode (O_NONBLOCK ||| O_RDWR)
-        unitCall (.ftruncate f size)
+    withKillpriv (cfg.killprivV2 && has valid FATTR_KILL_SUIDGID)
+      (match data with
+       | .handle f => unitCall (.ftruncate f size)
+       | .procPath _ => do
+         let f ← openInode cfg inode (O_NONBLOCK ||| O_RDWR)
+         unitCall (.ftruncate f size))
+  else pure ()
+
+/-- `if valid.intersects(ATIME | MTIME)`: futimens on the handle, or utimensat through /proc -/
+def setattrUtimens (data : SetattrData) (valid atime atimens mtime mtimens : Nat) : M Unit :=
   if has valid (FATTR_ATIME ||| FATTR_MTIME) then
-    let ((as, ans), (ms, mns)) := setattrTimes valid atime atimens mtime mtimens
+    let t := setattrTimes valid atime atimens mtime mtimens
     match data with
-    | .handle f => unitCall (.futimens f as ans ms mns)
-    | .procPath f => unitCall (.utimensatProc f as ans ms mns 0)
+    | .handle f => unitCall (.futimens f t.1.1 t.1.2 t.2.1 t.2.2)
+    | .procPath f => unitCall (.utimensatProc f t.1.1 t.1.2 t.2.1 t.2.2 0)
+  else pure ()
+
+/-- which descriptor `setattr` works on -/
+def setattrData (cfg : Cfg) (inode : Nat) (handle : Option Nat) (file : Fd) : M SetattrData :=
+  if cfg.noOpen then pure (.procPath file) else
+  match handle with
+  | some h => do
+    let s ← M.get
+    let hd ← M.ofOption EBADF (s.getHandle h inode)
+    pure (.handle hd.fd)
+  | none => pure (.procPath file)
+
+def setattr (cfg : Cfg) (inode : Nat) (handle : Option Nat)
+    (valid mode uid gid size atime atimens mtime mtimens : Nat) : M Reply := do
+  let d ← inodeData inode
+  let file ← getFile d
+  let data ← setattrData cfg inode handle file
+  setattrMode data valid mode
+  setattrOwner file valid uid gid
+  setattrSize cfg inode data valid size
+  setattrUtimens data valid atime atimens mtime mtimens
   doGetattr cfg inode handle
 
 def readlink (inode : Nat) : M Reply := do
